@@ -352,6 +352,115 @@ def returned_arrays(p, attr):
     raise ValueError(attr)
 
 
+def _arrays(r):
+    """all ndarrays a call result hands out (directly or inside tuples / lists)"""
+    if isinstance(r, np.ndarray):
+        return [r]
+    if isinstance(r, (tuple, list)):
+        return [a for x in r for a in _arrays(x)]
+    return []
+
+
+def call_shared(p, m):
+    """PartHist action CM: calls the non-mutating public method family `m` of the IntervalProd (`set.*`), the RectGrid
+    (`grid.*`) or the partition itself (`part.*`) that partition `p` holds, in every index / keyword spelling, and returns
+    what the calls handed out (the caller overwrites the arrays among it)."""
+    tgt, name = m.split('.', 1)
+    n = p.ndim
+    S, G = p.set, p.grid
+    mid = [(float(a) + float(b)) / 2 for a, b in zip(S.min_pt, S.max_pt)]
+    node0 = [float(cv[0]) for cv in G.coord_vectors]
+    one = IntervalProd([0.0], [1.0])
+    g1 = RectGrid([0.0, 1.0])
+    sl = lambda *a: tuple(slice(*a) for _ in range(n))
+    if tgt == 'set':
+        if name == 'collapse':
+            return [S.collapse(n - 1, mid[n - 1]), S.collapse(0, float(S.min_pt[0]))]
+        if name == 'collapse_seq':
+            return [S.collapse(list(range(n)), mid), S.collapse([0], [mid[0]]), S.collapse((n - 1,), np.array([mid[n - 1]]))]
+        if name == 'squeeze':
+            return [S.squeeze()]
+        if name == 'insert':
+            return [S.insert(0, one), S.insert(n, one, one), S.insert(-1, S)]
+        if name == 'append':
+            return [S.append(one), S.append(S, one)]
+        if name == 'min':
+            return [S.min()]
+        if name == 'max':
+            return [S.max()]
+        if name == 'corners':
+            return [S.corners(), S.corners(order='F')]
+        if name == 'extent':
+            return [S.extent]
+        if name == 'mid_pt':
+            return [S.mid_pt]
+        if name == 'element':
+            return [S.element(), S.element(mid[0] if n == 1 else mid)]
+        if name == 'getitem':
+            return [S[0], S[-1], S[:], S[::-1], S[[0]], S[list(range(n))]]
+        if name == 'arith':
+            return [S + 1.0, S - 1.0, S * 2.0, S / 2.0, -S, +S, S + S, S - S, S * S]
+        if name == 'scalars':
+            return [S.volume, S.measure(), S.measure(ndim=S.true_ndim), S.dist(mid), S.dist(mid, exponent=1.0), mid in S,
+                    S.contains_set(S), S.contains_all(np.array(mid)[:, None]), S.approx_contains(mid, 0.25),
+                    S.approx_equals(S, 0.25), S == S, S != S, hash(S), repr(S), str(S), len(S), S.ndim, S.true_ndim]
+    elif tgt == 'grid':
+        if name == 'min':
+            return [G.min(), G.min(axis=0), G.min(keepdims=True)]
+        if name == 'max':
+            return [G.max(), G.max(axis=0), G.max(keepdims=True)]
+        if name == 'max_pt':
+            return [G.max_pt]
+        if name == 'mid_pt':
+            return [G.mid_pt]
+        if name == 'extent':
+            return [G.extent]
+        if name == 'squeeze':
+            return [G.squeeze(), G.squeeze(axis=0) if G.shape[0] == 1 else None]
+        if name == 'insert':
+            return [G.insert(0, g1), G.insert(n, g1, g1), G.insert(-1, G)]
+        if name == 'append':
+            return [G.append(g1), G.append(G, g1)]
+        if name == 'getitem':
+            return [G[sl(None)], G[sl(None, None, 2)], G[sl(0, 1)], G[(0,) * n], G[(-1,) * n],
+                    G[..., 0] if n > 1 else G[...], G[[0]] if n == 1 else G[[0], ...]]
+        if name == 'points':
+            return [G.points(), G.points(order='F')]
+        if name == 'corners':
+            return [G.corners(), G.corners(order='F')]
+        if name == 'corner_grid':
+            return [G.corner_grid()]
+        if name == 'convex_hull':
+            h = G.convex_hull()
+            return [h, h.min(), h.max()]
+        if name == 'scalars':
+            return [G == G, G != G, hash(G), G.is_subgrid(G), G.is_subgrid(G, atol=0.25), G.approx_equals(G, 0.25),
+                    G.approx_contains(node0, 0.25), node0 in G, repr(G), str(G), G.size, G.shape, len(G), G.ndim,
+                    G.is_uniform, G.is_uniform_byaxis, np.asarray(G), G.element()]
+    elif tgt == 'part':
+        p1 = uniform_partition(0, 1, 2)
+        if name == 'squeeze':
+            return [p.squeeze(), p.squeeze(axis=0) if p.shape[0] == 1 else None]
+        if name == 'insert':
+            return [p.insert(0, p1), p.insert(n, p1, p1), p.insert(-1, p)]
+        if name == 'append':
+            return [p.append(p1), p.append(p, p1)]
+        if name == 'getitem':
+            return [p[sl(None)], p[sl(None, None, 2)], p[sl(0, 1)], p[0:1], p[...], p[-1:]]
+        if name == 'byaxis':
+            return [p.byaxis[0], p.byaxis[-1], p.byaxis[::-1], p.byaxis[list(range(n))]]
+        if name == 'points':
+            return [p.points(), p.points(order='F'), p.corner_grid() if hasattr(p, 'corner_grid') else None]
+        if name == 'index':
+            x = mid[0] if n == 1 else mid
+            return [p.index(x), p.index(x, floating=True)]
+        if name == 'scalars':
+            return [p == p, p != p, hash(p), p.approx_equals(p, 0.25), repr(p), str(p), p.size, p.shape, len(p), p.ndim,
+                    p.cell_volume, p.boundary_cell_fractions, p.has_isotropic_cells, p.nodes_on_bdry, p.nodes_on_bdry_byaxis,
+                    p.is_uniform, p.is_uniform_byaxis, p.has_isotropic_cells, p.mid_pt]
+    raise ValueError(m)
+
+
 def run_part_history(sc, objs, hist):
     """Replays one behaviour of PartHist on real objects. The coordinate / limit arrays are owned by the caller
     (float64, 1-d, contiguous: exactly the internal representation), ONE RectGrid object is shared."""
@@ -395,6 +504,10 @@ def run_part_history(sc, objs, hist):
                 for a in returned_arrays(parts[st['i'] - 1], st['attr']):
                     if isinstance(a, np.ndarray) and a.flags.writeable:
                         a[...] = a + 1.0
+            elif st['a'] == 'CM':
+                for a in _arrays(call_shared(parts[st['i'] - 1], st['attr'])):
+                    if a.flags.writeable:
+                        a[...] = (a + 1.0) if a.dtype.kind == 'f' else ~a if a.dtype.kind == 'b' else a + 1
             elif st['a'] == 'SWEEP':
                 first = [{q: hist_query(p, q, sc['nodes']) for q in QUERIES} for p in parts]
                 second = [None] * len(parts)
